@@ -191,6 +191,74 @@ func bigResponsesScenario(srv *server, k int) {
 	run.Distinct(fmt.Sprintf("big-responses|%d", k))
 }
 
+// retainProto: a protocol whose Invoke keeps working on its packet after the server's handle
+// timeout has already answered for it — the packet handed to the protocol layer is the protocol
+// layer's for as long as it runs.
+type retainProto struct {
+	changed atomic.Int64
+	slow    atomic.Int64
+}
+
+func (p *retainProto) ParsePackage(b []byte) (int, int) { return protocol.TarsRequest(b) }
+func (p *retainProto) Invoke(ctx context.Context, pkg []byte) []byte {
+	if len(pkg) > 8 && pkg[4] == 'S' {
+		snap := append([]byte(nil), pkg...)
+		p.slow.Add(1)
+		time.Sleep(300 * time.Millisecond)
+		if !bytes.Equal(snap, pkg) {
+			p.changed.Add(1)
+		}
+	}
+	return ack(pkg)
+}
+func (p *retainProto) InvokeTimeout(pkg []byte) []byte { return ack(pkg) }
+func (p *retainProto) GetCloseMsg() []byte             { return netlab.Frame([]byte("CLOSE")) }
+func (p *retainProto) DoClose(ctx context.Context)     {}
+
+// retainedPacketScenario: handle timeout 50 ms; 20 slow handlers (300 ms) each look at their packet
+// again when they wake up, while 400 other packets of the same size pass through the server on two
+// connections.  A packet that changed under its handler had another packet's bytes carried into it.
+func retainedPacketScenario(pool int) {
+	p := &retainProto{}
+	conf := netlab.DefaultServerConf("tcp")
+	conf.MaxInvoke = int32(pool)
+	conf.HandleTimeout = 50 * time.Millisecond
+	if _, err := netlab.StartServer(p, conf); err != nil {
+		run.Inconclusive("cannot start server")
+		return
+	}
+	mk := func(fill byte) []byte { return netlab.Frame(bytes.Repeat([]byte{fill}, 200)) }
+	var conns []net.Conn
+	for i := 0; i < 2; i++ {
+		c, err := net.DialTimeout("tcp", conf.Address, 3*time.Second)
+		if err != nil {
+			run.Inconclusive("dial failed")
+			return
+		}
+		defer c.Close()
+		conns = append(conns, c)
+		go func(c net.Conn) { _, _ = io.Copy(io.Discard, c) }(c)
+	}
+	for i := 0; i < 20; i++ {
+		_, _ = conns[0].Write(mk('S'))
+	}
+	for i := 0; i < 400; i++ {
+		_, _ = conns[i%2].Write(mk('F'))
+		if i%40 == 0 {
+			time.Sleep(10 * time.Millisecond)
+		}
+	}
+	waitFor(func() bool { return p.slow.Load() >= 20 }, 5*time.Second)
+	time.Sleep(500 * time.Millisecond)
+	run.Eval(1)
+	if n := p.changed.Load(); n > 0 {
+		run.Violation("framing-mismatch", "server:packet-changed-under-its-handler", fmt.Sprintf("%d of 20 packets handed to the protocol layer had changed when their handler (still running after the 50 ms handle timeout) looked at them again 300 ms later; 400 other packets had passed through the server meanwhile (pool %d)", n, pool),
+			map[string]interface{}{"scenario": "retained-packet", "handle_timeout_ms": 50, "handler_ms": 300, "pool": pool})
+		return
+	}
+	run.Distinct(fmt.Sprintf("retained-packet|pool%d", pool))
+}
+
 // ---------- scenarios ----------
 
 type scenario struct {
@@ -699,6 +767,9 @@ func main() {
 		}
 		wg.Wait()
 		if ml == 10485760 {
+			for rep := 0; rep < run.Pick(2, 12); rep++ {
+				retainedPacketScenario([]int{0, 8}[rep%2])
+			}
 			for rep := 0; rep < run.Pick(3, 20); rep++ {
 				bigResponsesScenario(startServer(0), 4+rep%5)
 			}
